@@ -52,7 +52,7 @@ func runC13(c *Ctx, idx int) {
 	doc := parseHTML(src)
 	pageStr := pg.PageURL
 	if idx%4 == 1 {
-		pageStr = []string{"http://example.com/story/alpha%20beta/caf%C3%A9/page%2F2?x=%41&y=a+b", "http://example.com/a%2Fb/%7Euser/page/2/", "HTTP://EXAMPLE.com:80/Story/../alpha/./page/2?#"}[idx/4%3]
+		pageStr = []string{"http://example.com/story/alpha%20beta/caf%C3%A9/page%2F2?x=%41&y=a+b", "http://example.com/a%2Fb/%7Euser/page/2/", "HTTP://EXAMPLE.com:80/Story/../alpha/./page/2?#", "//example.com/stories/lake", "http://example.com"}[idx/4%5]
 	}
 	page := mustURL(pageStr)
 	wit := func(extra map[string]any) map[string]any {
